@@ -20,7 +20,7 @@ def make_experiments(rng, comp, n, online, stated_mode, mixed_units):
     ea_true = rng.uniform(-60000.0, 120000.0) if rng.random() < 0.9 else 0.0
     p0, t0 = gen.logu(rng, 1e-6, 1.0), rng.uniform(273.0, 400.0)
     exps = []
-    unit_all = rng.choice([KG, KG, "SI", "GPU"])
+    unit_all = gen.tstr(rng, rng.choice([KG, KG, "SI", "GPU"]))
     for k, t in enumerate(temps):
         if online:
             p = p0 * math.exp(-ea_true / R * (1 / t - 1 / t0))
@@ -32,7 +32,7 @@ def make_experiments(rng, comp, n, online, stated_mode, mixed_units):
             ea = None
         else:
             ea = rng.choice([None, rng.uniform(-60000.0, 120000.0)])
-        units = rng.choice([KG, "SI", "GPU"]) if mixed_units else unit_all
+        units = gen.tstr(rng, rng.choice([KG, "SI", "GPU"])) if mixed_units else unit_all
         perm = pv.Permeance(value=p, units=KG).convert(units, comp)
         e = pv.IdealExperiment(name="e%d" % k, temperature=t, component=comp, permeance=perm, activation_energy=ea)
         # what was SUPPLIED (not what the object holds after construction): the specification is told the inputs
